@@ -287,3 +287,56 @@ def jsonable(x):
     except Exception:
         pass
     return repr(x)
+
+
+def local_import_closure(root_modules):
+    """modules of this lake project (Props/Proofs/Model) reachable from the given ones through `import` lines"""
+    import re
+    seen, todo = [], list(root_modules)
+    while todo:
+        m = todo.pop()
+        if m in seen:
+            continue
+        f = LEAN / (m.replace('.', '/') + '.lean')
+        if not f.exists():
+            continue
+        seen.append(m)
+        for imp in re.findall(r'^import\s+(\S+)', f.read_text(), flags=re.M):
+            if imp.split('.')[0] in ('Props', 'Proofs', 'Model'):
+                todo.append(imp)
+    return sorted(seen)
+
+
+def leanchecker(modules, timeout=3000):
+    """independent re-check of the compiled .olean files of these modules"""
+    rc, out, dt = run(['lake', 'env', 'leanchecker'] + list(modules), cwd=LEAN, timeout=timeout)
+    return rc == 0, out[-2000:], dt
+
+
+def tie_a():
+    """Tie A: translate the loop-free integer code of the *current* source to Lean and check the generated equivalence
+    theorems. Returns ({theorem: axioms | None}, translator status, log tail)."""
+    import re
+    script = VERIF / 'translate' / 'py2lean.py'
+    p = subprocess.run([sys.executable if sys.executable else 'python3', str(script), '--repo', str(REPO), '--status'],
+                       capture_output=True, text=True, timeout=300)
+    if p.returncode != 0:
+        return {}, dict(error=p.stderr[-500:]), p.stderr[-500:]
+    st = json.loads(p.stderr)
+    d = LEAN / '.lake' / 'audit'
+    d.mkdir(parents=True, exist_ok=True)
+    f = d / f"tiea_{os.getpid()}.lean"
+    f.write_text(p.stdout)
+    try:
+        rc, out, dt = run(['lake', 'env', 'lean', str(f)], cwd=LEAN, timeout=900)
+    finally:
+        try:
+            f.unlink()
+        except OSError:
+            pass
+    res = {t: None for t in st['theorems'].values()}
+    for m in re.finditer(r"'([^']+)' depends on axioms: \[([^\]]*)\]", out):
+        res[m.group(1)] = [a.strip() for a in m.group(2).replace('\n', ' ').split(',') if a.strip()]
+    for m in re.finditer(r"'([^']+)' does not depend on any axioms", out):
+        res[m.group(1)] = []
+    return res, st, out[-1500:]
